@@ -145,6 +145,19 @@ class W_ClassCache(Module):
         return dy * 2
 
 
+def w_round2(x, parts, sl, u):
+    flat = x.ravel(order='K')          # R-LAYOUT: memory-order flatten
+    o = 0
+    for p in parts:
+        n = p.size
+        p[:] = flat[o:o + n]
+        o = n                          # R-RUN-OFFSET: offset replaced instead of advanced
+    lo = sl.start + 1                  # R-SLICE-ARITH: raw slice bound in arithmetic
+    if u.dot(u) == 0:                  # R-SELFDOT: un-conjugated self product as a zero test
+        return None
+    return flat, lo
+
+
 class W_Solver(LinearSolver):
     def update(self, A):
         self.A = A
